@@ -14,7 +14,8 @@
     take the same decisions and end with the same `toInt`s (used with Lean `Float` on one side and exact rationals
     on the other: `Float` occurs only through the abstract `toInt`, `ofInt`);
   * `nudgeSpec_rat_even` — over exact rationals `nudgeSpec` IS the hand-written model `GridSampler.checkAndNudge`
-    (on even-length slices, the domain the Go comment "points.length must be even" and the property claim).
+    (on even-length slices, the domain the Go comment "points.length must be even" and the property claim);
+    `nudgeSpec_rat` — and `GridSampler.checkAndNudgePoints` on EVERY slice (odd lengths as coded).
   Core Lean only.
 -/
 import Gzx.GoMNum
@@ -560,6 +561,143 @@ theorem nudgeSpec_rat_even (w h : Int) (ps : List Pt) :
       have := fromPairs_reverse ps2.reverse
       rw [List.reverse_reverse] at this
       rw [← this, List.reverse_reverse]
+
+/-! #### every slice, odd lengths as coded -/
+
+theorem passFwdF_rat_tail (w h : Int) (r : List Rat) (hr : r.length ≤ 1) : ∀ ps : List Pt,
+    passFwdF ratOps w h (fromPairs ps ++ r) = optOf (nudgePass w h ps) (fun q => fromPairs q ++ r) := by
+  intro ps
+  induction ps with
+  | nil =>
+    match r, hr with
+    | [], _ => rfl
+    | [_], _ => rfl
+  | cons p ps ih =>
+    simp only [fromPairs, List.cons_append, passFwdF, nudgePass, nudgePassG, beyondF_rat, nudgeCoordF_rat]
+    by_cases hb : beyond w h p = true
+    · simp [hb, optOf]
+    · simp only [hb, if_false, Bool.false_eq_true]
+      by_cases hn : ((nudgeCoord w (w - 1) p.1).2 || (nudgeCoord h (h - 1) p.2).2) = true
+      · simp only [hn, if_true]
+        rw [ih]
+        unfold nudgePass
+        cases nudgePassG w h (h - 1) ps <;> simp [optOf, fromPairs]
+      · simp only [hn, if_false, Bool.false_eq_true]
+        simp [optOf, fromPairs]
+
+theorem passBwdRevF_rat_tail (w h : Int) (r : List Rat) (hr : r.length ≤ 1) : ∀ qs : List Pt,
+    passBwdRevF ratOps w h (revPairs qs ++ r) = optOf (nudgePass w h qs) (fun q => revPairs q ++ r) := by
+  intro ps
+  induction ps with
+  | nil =>
+    match r, hr with
+    | [], _ => rfl
+    | [_], _ => rfl
+  | cons p ps ih =>
+    simp only [revPairs, List.cons_append, passBwdRevF, nudgePass, nudgePassG, beyondF_rat, nudgeCoordF_rat]
+    by_cases hb : beyond w h p = true
+    · simp [hb, optOf]
+    · simp only [hb, if_false, Bool.false_eq_true]
+      by_cases hn : ((nudgeCoord w (w - 1) p.1).2 || (nudgeCoord h (h - 1) p.2).2) = true
+      · simp only [hn, if_true]
+        rw [ih]
+        unfold nudgePass
+        cases nudgePassG w h (h - 1) ps <;> simp [optOf, revPairs]
+      · simp only [hn, if_false, Bool.false_eq_true]
+        simp [optOf, revPairs]
+
+/-- every slice is its pairs interleaved plus an unpaired rest of at most one element -/
+theorem toPairs_spec : ∀ l : List Rat, l = fromPairs (toPairs l).1 ++ (toPairs l).2 ∧ (toPairs l).2.length ≤ 1 ∧
+    l.length = 2 * (toPairs l).1.length + (toPairs l).2.length
+  | [] => ⟨rfl, by simp [toPairs], by simp [toPairs]⟩
+  | [_] => ⟨rfl, by simp [toPairs], by simp [toPairs]⟩
+  | x :: y :: rest => by
+    obtain ⟨h1, h2, h3⟩ := toPairs_spec rest
+    refine ⟨?_, ?_, ?_⟩
+    · simp only [toPairs, fromPairs, List.cons_append]; rw [← h1]
+    · simpa [toPairs] using h2
+    · simp only [toPairs, List.length_cons]; omega
+
+theorem fromPairs_length (l : List Pt) : (fromPairs l).length = 2 * l.length := by
+  induction l with
+  | nil => rfl
+  | cons a l ih => simp only [fromPairs, List.length_cons, ih]; omega
+
+theorem toPairs_fromPairs_tail (l : List Pt) (r : List Rat) (hr : r.length ≤ 1) : toPairs (fromPairs l ++ r) = (l, r) := by
+  induction l with
+  | nil =>
+    match r, hr with
+    | [], _ => rfl
+    | [_], _ => rfl
+  | cons a l ih => simp [fromPairs, toPairs, ih]
+
+/-- `Res` of the model on a flat slice -/
+def optFlat : Res (List Rat) → Option (List Rat)
+  | .ok r => some r
+  | .error _ => none
+
+theorem toPairs_even (l : List Rat) (hev : l.length % 2 = 0) : l = fromPairs (toPairs l).1 ∧ toPairs l = ((toPairs l).1, []) := by
+  obtain ⟨h1, h2, h3⟩ := toPairs_spec l
+  have hr : (toPairs l).2 = [] := by
+    match hq : (toPairs l).2, h2 with
+    | [], _ => rfl
+    | [_], _ => rw [hq] at h3; simp at h3; omega
+  constructor
+  · rw [hr, List.append_nil] at h1; exact h1
+  · exact Prod.ext rfl hr
+
+theorem passBwdEven_rat (w h : Int) (t x : List Rat) (hx : x.length ≤ 1) (hev : t.length % 2 = 0) :
+    (passBwdRevF ratOps w h (x ++ t).reverse).map List.reverse =
+      optFlat (match passBwdEven w h t with | .ok t' => .ok (x ++ t') | .error e => .error e) := by
+  obtain ⟨ht, htp⟩ := toPairs_even t hev
+  generalize (toPairs t).1 = qs at ht htp
+  subst ht
+  unfold passBwdEven
+  rw [htp]
+  simp only [List.append_nil, List.reverse_append]
+  rw [fromPairs_reverse, passBwdRevF_rat_tail w h x.reverse (by simpa using hx)]
+  cases h2 : nudgePass w h qs.reverse with
+  | error e => rfl
+  | ok ps2 =>
+    simp only [optOf, optFlat, Option.map_some, List.reverse_append, List.reverse_reverse]
+    have := fromPairs_reverse ps2.reverse
+    rw [List.reverse_reverse] at this
+    rw [← this, List.reverse_reverse]
+
+theorem passBwd_rat (w h : Int) (l : List Rat) :
+    (passBwdRevF ratOps w h l.reverse).map List.reverse = optFlat (passBwd w h l) := by
+  unfold passBwd
+  by_cases hev : l.length % 2 = 0
+  · rw [if_pos hev]
+    have := passBwdEven_rat w h l [] (by simp) hev
+    simp only [List.nil_append] at this
+    rw [this]
+    cases passBwdEven w h l <;> rfl
+  · rw [if_neg hev]
+    match l, hev with
+    | [], hev => simp at hev
+    | x :: t, hev =>
+      have hevt : t.length % 2 = 0 := by simp only [List.length_cons] at hev; omega
+      have := passBwdEven_rat w h t [x] (by simp) hevt
+      simp only [List.cons_append, List.nil_append] at this
+      rw [this]
+      rfl
+
+/-- **Over exact rationals the specification is the model, on EVERY slice** (odd lengths as coded: the second loop
+    pairs `(points[1], points[2]), …` and never touches `points[0]`). -/
+theorem nudgeSpec_rat (w h : Int) (pts : List Rat) :
+    nudgeSpec ratOps w h pts = optFlat (checkAndNudgePoints w h pts) := by
+  obtain ⟨hp, hr, hlen⟩ := toPairs_spec pts
+  unfold nudgeSpec checkAndNudgePoints passFwd
+  conv => lhs; rw [hp, passFwdF_rat_tail w h _ hr]
+  cases h1 : nudgePass w h (toPairs pts).1 with
+  | error e => rfl
+  | ok ps1 =>
+    simp only [optOf]
+    have := passBwd_rat w h (fromPairs ps1 ++ (toPairs pts).2)
+    cases hb : passBwdRevF ratOps w h (fromPairs ps1 ++ (toPairs pts).2).reverse with
+    | none => rw [hb] at this; rw [← this]; rfl
+    | some r => rw [hb] at this; rw [← this]; rfl
 
 end rat
 
